@@ -2,6 +2,7 @@
    request  :=  expr
    expr     :=  '(' 'C' idx arg* ')'          call entry point idx (index table Gen/PropLib.index.json)
    arg      :=  'P'hex                        a pattern argument
+             |  '(' 'S' (id'='hex)* ')'       an instantiation map (insertion order)
              |  expr                          a premise thunk built by another entry point
              |  '(' 'A' hex ')'               a premise thunk loading the declared assumption `hex`
    answer   :=  'OK' conc-hex md5(trace) size replayed-conc-hex|'-' uses_only  |  'NONE'  |  'BAD' *)
@@ -73,6 +74,16 @@ let rec parse_expr toks : thunk * string list =
       let i = int_of_string idx in
       let rec args acc toks = match toks with
         | ")" :: rest -> (List.rev acc, rest)
+        | "(" :: "S" :: rest ->
+            let rec items acc2 toks = match toks with
+              | ")" :: rest -> (List.rev acc2, rest)
+              | it :: rest ->
+                  (match String.index_opt it '=' with
+                   | Some j -> items ((n_of_int (int_of_string (String.sub it 0 j)),
+                                       pat_of (String.sub it (j+1) (String.length it - j - 1))) :: acc2) rest
+                   | None -> raise Bad)
+              | [] -> raise Bad in
+            let (dl, rest) = items [] rest in args (ASubst dl :: acc) rest
         | "(" :: _ -> let (t, rest) = parse_expr toks in args (AThunk t :: acc) rest
         | tok :: rest when String.length tok >= 1 && tok.[0] = 'P' ->
             args (APat (pat_of (String.sub tok 1 (String.length tok - 1))) :: acc) rest
